@@ -81,6 +81,86 @@ ASSUMPTIONS = [
     "statistics are compared through harness/dfgen.read_stats (numpy scalars / tensors / tuples normalised)",
 ]
 
+# (clause of the property, oracle keys that report its failure, where the generator draws it)
+CLAUSES = [
+    ("save -> load returns an equal frame: every stype, views produced by slicing, empty frames, frames without target",
+     "save-raises, load-raises, frame-differs:*, tf-neq, source-modified, device-differs, reuse:*",
+     "saveload + reuse cases (variants whole/slice/slice2/index/catrows/catcols/catself/empty/featureless), boundary stream"),
+    ("... and equal statistics (value AND container/scalar types)", "stats-differ, stats-types-differ",
+     "same cases, with_stats on/off, load(device omitted | 'cpu' | torch.device)"),
+    ("materializing with a cache path writes such a file", "hist:no-file-written[:supplied-stats], hist:cache-file-differs, "
+     "trunc:write-failed, trunc:control", "history events mat/new/rewrite with path x fresh/materialized x col_stats= x device="),
+    ("a later materialization with that path returns the same TensorFrame and statistics as a fresh computation",
+     "hist:materialize-raises:*, hist:cached-differs:*, hist:stale-after-rewrite, hist:derived-overwrote-cache, "
+     "hist:restore-rewrote-cache, hist:file-touched", "history events new/newdf/derived/rewrite after mat(path)"),
+    ("a dataset restored from the cache converts new data exactly like the original",
+     "hist:convert-raises, hist:restored-converter-differs, hist:convert-before-materialize", "conv events (1 row, repeated row, all rows, shifted columns)"),
+    ("a cache file cut short at any point raises instead of loading partial data",
+     "trunc:load-partial, trunc:prefix-loads, trunc:materialize-partial, trunc:materialize-no-raise, "
+     "hist:no-raise-on-cut-cache, hist:raise-but-materialized, hist:cut-cache-rewritten, hist:cut-file-loads",
+     "trunc cases (all k thorough / 64 stratified quick), crash and cut events"),
+]
+
+# Boundaries of the dimensions in QUANTIFIED OVER (inputs x histories x crash points).  Each entry is hit
+# DELIBERATELY by gen_boundaries() in every run, counted in stats()["boundaries"] and required by sanity().
+BOUNDARIES = [
+    # --- inputs: TensorFrames / statistics
+    ("rows-0", "zero-row frame of all nine stypes (tf[0:0])"),
+    ("rows-1", "one-row frame of all nine stypes"),
+    ("rows-2", "two-row frame of all nine stypes"),
+    ("cols-1-per-stype", "exactly one column per storage kind (num_cols == 1 containers)"),
+    ("cols-2-equal-widths", "two embedding columns of EQUAL width and two ragged columns side by side"),
+    ("ragged-all-empty", "every ragged cell empty: values.numel() == 0, offset all zeros (multicat / sequence / tokens)"),
+    ("emb-width-1", "embedding column of width 1"),
+    ("all-missing", "every cell of every column missing (NaN statistics, -1 codes, empty sequences)"),
+    ("view-first-row", "slice view [0:1] (offset 0)"),
+    ("view-last-row", "slice view [n-1:n] (largest non-zero storage offset)"),
+    ("view-whole", "slice view [0:n] equal to its base"),
+    ("view-through-empty", "selection of an EMPTY intermediate result (tf[n:][0:1])"),
+    ("index-same-row-repeated", "tf[[1, 1, 1]]: the same row three times"),
+    ("cat-same-object-twice", "torch_frame.cat([tf, tf]): the same object repeated"),
+    ("cat-empty-part-first", "row concatenation whose first part has zero rows"),
+    ("cat-empty-part-last", "row concatenation whose last part has zero rows"),
+    ("no-target", "frame without y"),
+    ("target-one-class", "categorical target with a single class, one row"),
+    ("stats-none", "col_stats=None"),
+    ("stats-empty-dict", "col_stats={} (feature-less frame)"),
+    ("featureless-rows-0", "feature-less frame, num_rows=0"),
+    ("featureless-rows-1-with-y", "feature-less frame, num_rows=1, y of one element"),
+    ("explicit-rows-equal-feature-rows", "frame with features AND an explicit num_rows equal to the features' rows"),
+    ("device-cpu-string", "load(path, device='cpu')"),
+    ("device-torch-device", "load(path, device=torch.device('cpu'))"),
+    ("reuse-same-frame-twice", "the same frame saved twice onto one path (equal file sizes)"),
+    ("reuse-one-row-fewer", "a frame, then the same frame minus exactly one row, onto one path"),
+    # --- histories
+    ("hist-single-materialize", "the shortest history: one materialize(path)"),
+    ("hist-same-object-twice", "materialize(path) twice on the SAME object (second call is a no-op)"),
+    ("hist-new-twice", "two new Datasets in a row restore from the same file"),
+    ("hist-one-row-table", "a table of exactly one row cached and restored"),
+    ("hist-retry-after-raise", "materialize(path) raises on a cut file, is retried on the same object (raises again), then materialize() without path recovers"),
+    ("hist-crash-0", "crash after 0 bytes (empty file exists)"),
+    ("hist-crash-1", "crash after 1 byte"),
+    ("hist-crash-len-1", "crash one byte before the end"),
+    ("hist-crash-full", "crash after the complete file was written (k = len)"),
+    ("hist-cut-0", "loaded cache file cut in place to 0 bytes"),
+    ("hist-cut-len-1", "loaded cache file cut in place by exactly one byte"),
+    ("hist-conv-one-row", "convert exactly one new row"),
+    ("hist-conv-same-row-repeated", "convert the same row three times"),
+    ("hist-conv-all-rows", "convert all rows (the cached table itself)"),
+    ("hist-derived-0-rows", "derived dataset ds[:0] calls materialize(path)"),
+    ("hist-derived-all-rows", "derived dataset ds[:n] (all rows) calls materialize(path)"),
+    ("hist-rewrite-same-size-table", "the path handed to another table with the SAME number of rows"),
+    ("hist-supplied-equals-own", "col_stats supplied are the table's OWN statistics (supplied == computed)"),
+    # --- crash points
+    ("trunc-smallest-file", "truncation sweep of the smallest cache (1 row, 1 column)"),
+    ("trunc-saved-featureless", "truncation sweep of a saved feature-less frame (no tensor records in the archive)"),
+    ("trunc-k-0-1-2", "k = 0, 1, 2"),
+    ("trunc-k-len-1-len-2", "k = len-1, len-2"),
+    ("trunc-k-eocd", "k = len-22, len-23: around the start of the zip end-of-central-directory record"),
+    ("trunc-k-zip-records", "k on / next to every kind of zip record signature present in the file"),
+]
+BOUNDARY_NAMES = [b for b, _ in BOUNDARIES]
+
 _TMP = None
 
 
@@ -280,9 +360,122 @@ def gen_reuse(rng):
     return {"kind": "reuse", "frame": big, "steps": steps}
 
 
+ALL_STYPES = ["numerical", "categorical", "multicategorical", "sequence_numerical", "timestamp", "embedding",
+              "text_embedded", "image_embedded", "text_tokenized"]
+_NAMES = ["alpha", "beta", "gamma", "delta", "eps", "zeta", "eta", "theta", "iota", "kappa", "lam", "mu"]
+
+
+def make_desc(rng, stypes, n, target=None, miss_p=0.0):
+    """a frame description with EXACTLY these columns"""
+    cols = [G.gen_col(rng, _NAMES[i], st, n, miss_p) for i, st in enumerate(stypes)]
+    for c in cols:
+        if c["stype"] == "text_tokenized":
+            c["tok_fmt"] = rng.pick(["list", "dict"])
+    if target is not None:
+        cols.append(G.gen_col(rng, "tgt", target, n, 0.0, for_target=True))
+    return {"n": n, "index": "range", "cols": cols, "target": "tgt" if target else None,
+            "col_order": [c["name"] for c in cols]}
+
+
+def gen_boundaries(rng):
+    """The dedicated boundary stream: one (or more) case per entry of BOUNDARIES, in every run."""
+    out = []
+
+    def sl(name, desc, variant, with_stats=True, device=None, **kw):
+        out.append(dict({"kind": "saveload", "frame": desc, "variant": variant, "with_stats": with_stats,
+                         "device": device, "boundary": name}, **kw))
+
+    for n, name in ((1, "rows-1"), (2, "rows-2")):
+        sl(name, make_desc(rng, ALL_STYPES, n, target="numerical"), {"v": "whole"})
+    d9 = make_desc(rng, ALL_STYPES, 4, target="categorical")
+    sl("rows-0", d9, {"v": "slice", "a": 0, "b": 0})
+    sl("cols-1-per-stype", make_desc(rng, ["numerical", "multicategorical", "embedding", "text_tokenized"], 3), {"v": "whole"})
+    d = make_desc(rng, ["embedding", "embedding", "multicategorical", "multicategorical", "sequence_numerical",
+                        "sequence_numerical"], 3)
+    d["cols"][1]["width"] = d["cols"][0]["width"]
+    d["cols"][1]["cells"] = [[G.dyadic(rng, -8, 8) for _ in range(d["cols"][0]["width"])] for _ in range(3)]
+    sl("cols-2-equal-widths", d, {"v": "whole"})
+    d = make_desc(rng, ["multicategorical", "sequence_numerical", "text_tokenized"], 3)
+    d["cols"][0].update(sep=None, dtype="object", cells=[[], [], []])
+    d["cols"][1]["cells"] = [[], [], []]
+    d["cols"][2].update(cells=["", "", ""], tok_fmt="list")      # the dict format pads to width >= 1
+    sl("ragged-all-empty", d, {"v": "whole"})
+    d = make_desc(rng, ["embedding", "numerical"], 3)
+    d["cols"][0].update(width=1, cells=[[G.dyadic(rng, -8, 8)] for _ in range(3)])
+    sl("emb-width-1", d, {"v": "whole"})
+    sl("all-missing", make_desc(rng, ["numerical", "categorical", "multicategorical", "sequence_numerical", "timestamp"],
+                                3, miss_p=1.0), {"v": "whole"})
+    n = d9["n"]
+    sl("view-first-row", d9, {"v": "slice", "a": 0, "b": 1})
+    sl("view-last-row", d9, {"v": "slice", "a": n - 1, "b": n})
+    sl("view-whole", d9, {"v": "slice", "a": 0, "b": n})
+    sl("view-through-empty", d9, {"v": "slice2", "a": n, "c": 0, "d": 1})
+    sl("index-same-row-repeated", d9, {"v": "index", "idx": [1, 1, 1]})
+    sl("cat-same-object-twice", d9, {"v": "catself"})
+    sl("cat-empty-part-first", d9, {"v": "catrows", "parts": [{"v": "slice", "a": 0, "b": 0}, {"v": "slice", "a": 0, "b": n}]})
+    sl("cat-empty-part-last", d9, {"v": "catrows", "parts": [{"v": "slice", "a": 1, "b": n}, {"v": "index", "idx": []}]})
+    sl("no-target", make_desc(rng, ["numerical", "text_tokenized", "multicategorical"], 3), {"v": "whole"})
+    d = make_desc(rng, ["numerical"], 1, target="categorical")
+    sl("target-one-class", d, {"v": "whole"})
+    sl("stats-none", d9, {"v": "whole"}, with_stats=False)
+    fl = lambda nn, y: {"n": nn, "cols": [], "target": None, "index": "range", "col_order": []}   # noqa: E731
+    sl("stats-empty-dict", fl(3, None), {"v": "featureless", "n": 3, "y": None, "op": {"v": "whole"}}, with_stats=True)
+    sl("featureless-rows-0", fl(0, None), {"v": "featureless", "n": 0, "y": None, "op": {"v": "whole"}}, with_stats=False)
+    sl("featureless-rows-1-with-y", fl(1, [2.5]), {"v": "featureless", "n": 1, "y": [2.5], "op": {"v": "whole"}},
+       with_stats=False)
+    sl("explicit-rows-equal-feature-rows", d9, {"v": "whole"}, explicit_rows=True)
+    sl("device-cpu-string", d9, {"v": "whole"}, device="cpu")
+    sl("device-torch-device", d9, {"v": "slice", "a": 1, "b": 3}, device="torch.device")
+    st = lambda desc, v, ws=True: {"frame": desc, "variant": v, "with_stats": ws, "device": None}   # noqa: E731
+    out.append({"kind": "reuse", "frame": d9, "steps": [st(d9, {"v": "whole"}), st(d9, {"v": "whole"})],
+                "boundary": "reuse-same-frame-twice"})
+    out.append({"kind": "reuse", "frame": d9, "boundary": "reuse-one-row-fewer",
+                "steps": [st(d9, {"v": "whole"}), st(d9, {"v": "index", "idx": list(range(n - 1))}), st(d9, {"v": "whole"})]})
+
+    # histories
+    def hist(name, desc, events, **kw):
+        out.append(dict({"kind": "history", "frame": desc, "events": events, "boundary": name}, **kw))
+    dh = make_desc(rng, ["categorical", "multicategorical", "numerical", "text_embedded", "text_tokenized"], 5,
+                   target="categorical")
+    M, N, MN = {"e": "mat", "path": True}, {"e": "new", "path": True}, {"e": "mat", "path": False}
+    conv = lambda rows, shift=False: {"e": "conv", "rows": rows, "shift": shift}   # noqa: E731
+    hist("hist-single-materialize", dh, [dict(M)])
+    hist("hist-same-object-twice", dh, [dict(M), dict(M), conv([0, 3])])
+    hist("hist-new-twice", dh, [dict(M), dict(N), dict(N), conv([4, 2], True)])
+    hist("hist-one-row-table", make_desc(rng, ["categorical", "sequence_numerical", "embedding"], 1),
+         [dict(M), dict(N), conv([0])])
+    hist("hist-retry-after-raise", dh, [{"e": "crash", "k": {"t": "frac", "v": 500}}, dict(N), dict(M), dict(M),
+                                        dict(MN), conv([1])])
+    for name, k in (("hist-crash-0", {"t": "abs", "v": 0}), ("hist-crash-1", {"t": "abs", "v": 1}),
+                    ("hist-crash-len-1", {"t": "end", "v": 1}), ("hist-crash-full", {"t": "full"})):
+        hist(name, dh, [{"e": "crash", "k": k}, dict(N), {"e": "new", "path": False}])
+    for name, k in (("hist-cut-0", {"t": "abs", "v": 0}), ("hist-cut-len-1", {"t": "end", "v": 1})):
+        hist(name, dh, [dict(M), dict(N), {"e": "cut", "k": k}, dict(N), gen_newdf(rng, 5)])
+    hist("hist-conv-one-row", dh, [dict(M), dict(N), conv([2])])
+    hist("hist-conv-same-row-repeated", dh, [dict(M), dict(N), conv([3, 3, 3])])
+    hist("hist-conv-all-rows", dh, [dict(M), dict(N), conv([0, 1, 2, 3, 4])])
+    hist("hist-derived-0-rows", dh, [dict(M), {"e": "derived", "op": {"t": "slice", "k": 0}, "path": True}, dict(N)])
+    hist("hist-derived-all-rows", dh, [dict(M), {"e": "derived", "op": {"t": "slice", "k": 5}, "path": True}, dict(N)])
+    hist("hist-rewrite-same-size-table", dh, [dict(M), dict(N), {"e": "rewrite", "how": "remove", "rows": [4, 3, 2, 1, 0],
+                                                                 "shift": True}, dict(N), conv([0, 1])])
+    hist("hist-supplied-equals-own", dh, [dict(M), dict(N), conv([1, 4], True)],
+         supplied_first={"rows": [0, 1, 2, 3, 4], "shift": False})
+
+    # crash points
+    tr = lambda name, desc, **kw: out.append(dict({"kind": "trunc", "frame": desc, "ks": "strat", "mat_ks": 6,   # noqa: E731
+                                                   "seed": rng.randint(0, 10 ** 6), "boundary": name}, **kw))
+    small = make_desc(rng, ["numerical"], 1)
+    tr("trunc-smallest-file", small)
+    tr("trunc-saved-featureless", fl(3, None), source={"v": "featureless", "n": 3, "y": [1, 2, 3], "op": {"v": "whole"}})
+    tr("trunc-k-0-1-2", dh)
+    for name in ("trunc-k-len-1-len-2", "trunc-k-eocd", "trunc-k-zip-records"):
+        out[-1]["boundary"] += "," + name       # one sweep serves the four point-boundaries; stats() checks each
+    return out
+
+
 def generate(rng, tier):
     n_sl, n_h, n_t = (400, 200, 8) if tier == "quick" else (6000, 3000, 60)
-    cases = []
+    cases = gen_boundaries(rng)
     for i in range(n_sl):
         if i % 8 == 3:
             cases.append(gen_featureless(rng))
@@ -548,6 +741,8 @@ def apply_variant(case, ds):
         return tf[v["a"]:][v["c"]:v["c"] + v["d"]]
     if v["v"] == "catrows":
         return torch_frame.cat([select(tf, p) for p in v["parts"]], dim=0)
+    if v["v"] == "catself":
+        return torch_frame.cat([tf, tf], dim=0)
     if v["v"] == "catcols":
         # two datasets over a split of the columns (the target stays in the first), re-joined column-wise
         desc = case["frame"]
@@ -860,9 +1055,12 @@ def run_history(case):
     return obs
 
 
+ZIP_SIGS = (b"PK\x03\x04", b"PK\x01\x02", b"PK\x05\x06", b"PK\x06\x06", b"PK\x06\x07", b"PK\x07\x08")
+
+
 def zip_boundaries(b):
     out = set()
-    for sig in (b"PK\x03\x04", b"PK\x01\x02", b"PK\x05\x06", b"PK\x06\x06", b"PK\x06\x07", b"PK\x07\x08"):
+    for sig in ZIP_SIGS:
         i = b.find(sig)
         while i >= 0:
             out.update((i - 1, i, i + 1, i + 4))
@@ -876,9 +1074,13 @@ def trunc_points(case, b):
         return list(range(n))
     rng = C.Rng(case["seed"])
     ks = {0, 1, 2, n - 1, n - 2, n - 22, n - 23, n // 2} & set(range(n))
+    for sig in ZIP_SIGS:                          # every kind of zip record present: its first and last occurrence
+        for i in (b.find(sig), b.rfind(sig)):
+            if i >= 0:
+                ks.update(k for k in (i - 1, i, i + 1) if 0 <= k < n)
     zb = sorted(zip_boundaries(b))
     rng.shuffle(zb)
-    ks.update(zb[:24])
+    ks.update(zb[:16])
     strata = 64 - len(ks)
     for s in range(strata):                      # one point per stratum of the remaining budget
         lo, hi = (n * s) // strata, max((n * (s + 1)) // strata - 1, (n * s) // strata)
@@ -888,24 +1090,41 @@ def trunc_points(case, b):
 
 def run_trunc(case):
     desc = case["frame"]
+    src = case.get("source")          # a frame written by torch_frame.save directly instead of a Dataset's cache
     try:
-        df = G.build_df(desc)
-        fresh = materialized(desc, df=df)
+        if src is not None:
+            tf0 = featureless(src)
+            f_obs, f_stats = obs_frame(tf0), stats_json({})
+        else:
+            df = G.build_df(desc)
+            fresh = materialized(desc, df=df)
+            f_obs, f_stats = obs_frame(fresh.tensor_frame), stats_json(fresh.col_stats)
     except Exception as ex:
         return {"skip": f"preparation raised {C.exc_name(ex)}: {str(ex)[:200]}"}
-    f_obs, f_stats = obs_frame(fresh.tensor_frame), stats_json(fresh.col_stats)
     p, q = fresh_path("t"), fresh_path("tq")
     obs = {}
     try:
         try:
-            G.build_dataset(desc, df=df)[0].materialize(path=p)
+            if src is not None:
+                torch_frame.save(tf0, {}, p)
+            else:
+                G.build_dataset(desc, df=df)[0].materialize(path=p)
         except Exception as ex:
             return {"ok": False, "exc": C.exc_name(ex), "msg": str(ex)[:300]}
         if not os.path.isfile(p):
             return {"ok": False, "exc": "no-file", "msg": "materialize(path) wrote no file"}
         b = open(p, "rb").read()
         ks = trunc_points(case, b)
-        obs.update(ok=True, len=len(b), tried=len(ks), special={"0": 0 in ks, "1": 1 in ks, "len-1": len(b) - 1 in ks},
+        nb = len(b)
+        zb = zip_boundaries(b)
+        obs.update(ok=True, len=len(b), tried=len(ks),
+                   special={"0": 0 in ks, "1": 1 in ks, "2": 2 in ks, "len-1": nb - 1 in ks, "len-2": nb - 2 in ks,
+                            "len-22": nb - 22 in ks, "len-23": nb - 23 in ks,
+                            "zip-records": len(zb & set(ks)),
+                            "zip-kinds-present": sorted(sig.hex() for sig in ZIP_SIGS if sig in b),
+                            "zip-kinds-hit": sorted(sig.hex() for sig in ZIP_SIGS
+                                                    if sig in b and {b.find(sig) - 1, b.find(sig), b.find(sig) + 1} <=
+                                                    (set(ks) | {-1}))},
                    control=file_state(p, f_obs, f_stats), load_returned=[],
                    mat_returned=[], exc_types={})
         for k in ks:
@@ -918,6 +1137,9 @@ def run_trunc(case):
                 nm = C.exc_name(ex)
                 obs["exc_types"][nm] = obs["exc_types"].get(nm, 0) + 1
         rng = C.Rng(case["seed"] + 1)
+        if src is not None:
+            obs["mat_tried"] = 0
+            return obs
         mks = sorted(set(rng.sample(ks, min(case["mat_ks"], len(ks))) + [ks[0], ks[-1]]))
         obs["mat_tried"] = len(mks)
         n = desc["n"]
@@ -1273,9 +1495,13 @@ def stats(cases, obss):
     d = {"kinds": {}, "variants": {}, "stypes": {}, "events": {}, "file_states_seen": {}, "skipped": 0,
          "rows": {}, "without_target": 0, "without_stats": 0, "truncation_points": 0, "truncation_files": 0,
          "truncation_exc_types": {}, "materialize_on_cut_file": 0, "raises_in_histories": 0, "file_len": []}
+    d["boundaries"] = {}
     for c, o in zip(cases, obss):
         if c is None or o is None:
             continue
+        for b in (c.get("boundary") or "").split(","):
+            if b and boundary_hit(b, c, o):
+                d["boundaries"][b] = d["boundaries"].get(b, 0) + 1
         d["kinds"][c["kind"]] = d["kinds"].get(c["kind"], 0) + 1
         if "skip" in o:
             d["skipped"] += 1
@@ -1337,6 +1563,66 @@ def stats(cases, obss):
     return d
 
 
+def boundary_hit(name, case, obs):
+    """Was the boundary REALLY reached by this run of its dedicated case (not only drawn)?"""
+    if obs is None or "skip" in obs or "harness_exc" in obs:
+        return False
+    k = case["kind"]
+    if k == "saveload":
+        if "file_len" not in obs:
+            return False
+        raw, n = obs["raw"], obs["pre"]["n"]
+        multis = [m for _, kind, p in raw["feats"] for m in ([x[1] for x in p] if kind == "dict" else [p])
+                  if kind in ("nested", "embed", "dict")]
+        checks = {
+            "rows-0": n == 0 and len(raw["feats"]) >= 6, "rows-1": n == 1, "rows-2": n == 2,
+            "cols-1-per-stype": bool(multis) and all(m["c"] == 1 for m in multis),
+            "ragged-all-empty": bool(multis) and all(m["v"][2] == [] and set(m["o"][2]) == {0} for m in multis),
+            "emb-width-1": any(kind == "embed" and p["o"][2] == [0, 1] for _, kind, p in raw["feats"]),
+            "view-through-empty": n == 0, "view-whole": n == case["frame"]["n"],
+            "index-same-row-repeated": n == 3, "cat-same-object-twice": n == 2 * case["frame"]["n"],
+            "no-target": raw["y"] is None, "stats-none": obs["pre_stats"] is None,
+            "stats-empty-dict": obs["pre_stats"] == {}, "featureless-rows-0": n == 0 and not raw["feats"],
+            "featureless-rows-1-with-y": n == 1 and raw["y"] is not None and not raw["feats"],
+            "explicit-rows-equal-feature-rows": raw["num_rows"] == n and bool(raw["feats"]),
+            "all-missing": n == 3,
+        }
+        return checks.get(name, True)
+    if k == "reuse":
+        lens = [o.get("file_len") for o in obs["steps"]]
+        if name == "reuse-same-frame-twice":
+            return len(lens) == 2 and lens[0] == lens[1]
+        return len(lens) == 3 and obs["steps"][1]["pre"]["n"] == obs["steps"][0]["pre"]["n"] - 1
+    if k == "history":
+        steps = obs["steps"]
+        if len(steps) != len(case["events"]) or any("skipped" in s for s in steps):
+            return False
+        cr = [s for e, s in zip(case["events"], steps) if e["e"] in ("crash", "cut")]
+        checks = {
+            "hist-crash-0": lambda: cr[0].get("k") == 0, "hist-crash-1": lambda: cr[0].get("k") == 1,
+            "hist-crash-len-1": lambda: cr[0].get("k") == cr[0]["len"] - 1,
+            "hist-crash-full": lambda: cr[0].get("k") == cr[0]["len"],
+            "hist-cut-0": lambda: cr[0]["k"] == 0, "hist-cut-len-1": lambda: cr[0]["k"] == cr[0]["len"] - 1,
+            "hist-retry-after-raise": lambda: [s.get("ok") for s in steps[1:5]] == [False, False, False, True],
+            "hist-derived-0-rows": lambda: steps[1].get("derived_rows") == 0,
+            "hist-derived-all-rows": lambda: steps[1].get("derived_rows") == case["frame"]["n"],
+            "hist-rewrite-same-size-table": lambda: obs["refs"][1]["obs"]["n"] == obs["refs"][0]["obs"]["n"],
+            "hist-supplied-equals-own": lambda: obs["refs"][0]["supplied"],
+            "hist-one-row-table": lambda: obs["refs"][0]["obs"]["n"] == 1,
+        }
+        return checks.get(name, lambda: True)()
+    if not obs.get("ok"):
+        return False
+    sp = obs["special"]
+    checks = {
+        "trunc-k-0-1-2": sp["0"] and sp["1"] and sp["2"], "trunc-k-len-1-len-2": sp["len-1"] and sp["len-2"],
+        "trunc-k-eocd": sp["len-22"] and sp["len-23"],
+        "trunc-k-zip-records": bool(sp["zip-kinds-present"]) and sp["zip-kinds-hit"] == sp["zip-kinds-present"],
+        "trunc-saved-featureless": obs["mat_tried"] == 0,
+    }
+    return checks.get(name, True)
+
+
 def sanity(cases, obss):
     """Fail-closed distribution check: a run that did not draw what the property quantifies over is not green."""
     probs = []
@@ -1366,6 +1652,9 @@ def sanity(cases, obss):
             for k in special:
                 special[k] += 1 if o["special"][k] else 0
     d = stats(cases, obss)
+    for b in BOUNDARY_NAMES:
+        if d["boundaries"].get(b, 0) == 0:
+            probs.append(f"boundary {b} not reached")
     for k in ("reuse_smaller_after_larger", "reuse_larger_after_smaller", "load_device:None", "load_device:cpu",
               "load_device:torch.device", "materialize_with_device", "supplied_stats_cache_writes"):
         if d.get(k, 0) == 0:
